@@ -43,7 +43,7 @@ func runC13(c *Ctx, r *Report, tier string) {
 	setters := c.instrs(ip, c.isCallTo("(*Option).Set", "(*Option).setDefault"))
 	r.Check(len(setters) == 2, "FUNNEL", in_, "setter call sites", c.pos(ip.Pos()), "Set and setDefault", fmt.Sprintf("%d", len(setters)))
 	for _, s := range setters {
-		arg := s.(*ssa.Call).Call.Args[1]
+		arg := c.resolve(s.(*ssa.Call).Call.Args[1])
 		p, ok := arg.(*ssa.Phi)
 		var origins []string
 		okAll := ok
